@@ -1095,3 +1095,176 @@ pub fn run_c09(ctx: &Ctx) -> ! {
     rep.assume("pipe-write counts depend on reader speed: determinism is required of the log with consecutive pipe writes collapsed, and k ranges over the calls of each actual run");
     finish(ctx, rep, violations);
 }
+
+// ═════════════════════════ shim-vs-strace audit ═════════════════════════
+
+fn strace_events(path: &Path, root: &str) -> Vec<String> {
+    let text = std::fs::read_to_string(path).unwrap_or_default();
+    let mut out = Vec::new();
+    let fdpath = |arg: &str| -> Option<String> {
+        let i = arg.find('<')?;
+        let j = arg.rfind('>')?;
+        Some(arg[i + 1..j].to_string())
+    };
+    for line in text.lines() {
+        // "<pid> syscall(args) = ret"
+        let Some((_, rest)) = line.split_once(' ') else { continue };
+        let rest = rest.trim_start();
+        if rest.starts_with("<...") || rest.starts_with("+++") || rest.starts_with("---") {
+            continue;
+        }
+        let Some(p) = rest.find('(') else { continue };
+        let name = &rest[..p];
+        let args = &rest[p + 1..];
+        // failed calls are still calls the code made; keep them (the shim logs before the call)
+        let quoted: Vec<String> = {
+            let mut v = Vec::new();
+            let b = args.as_bytes();
+            let mut i = 0;
+            while i < b.len() {
+                if b[i] == b'"' {
+                    let mut j = i + 1;
+                    while j < b.len() && !(b[j] == b'"' && b[j - 1] != b'\\') {
+                        j += 1;
+                    }
+                    v.push(args[i + 1..j.min(args.len())].to_string());
+                    i = j + 1;
+                } else {
+                    i += 1;
+                }
+            }
+            v
+        };
+        let first_arg = args.split(',').next().unwrap_or("");
+        let abs = |dirarg: &str, p: &str| -> String {
+            if p.starts_with('/') {
+                p.to_string()
+            } else {
+                // *at() calls carry their directory as `AT_FDCWD</cwd>` / `N</dir>`; the others are relative to
+                // the process's cwd, which the audit sets to the scratch root
+                format!("{}/{}", fdpath(dirarg).unwrap_or_else(|| root.to_string()), p)
+            }
+        };
+        let ev: Option<(String, String)> = match name {
+            "openat" | "open" | "creat" => {
+                let writing = args.contains("O_WRONLY") || args.contains("O_RDWR") || args.contains("O_CREAT") || args.contains("O_TRUNC") || name == "creat";
+                if writing { quoted.first().map(|q| ("open".to_string(), abs(first_arg, q))) } else { None }
+            }
+            "write" | "writev" | "pwrite64" => fdpath(first_arg).map(|p| ("write".to_string(), p)),
+            "copy_file_range" => args.split(',').nth(2).and_then(fdpath).map(|p| ("copy_file_range".to_string(), p)),
+            "sendfile" => fdpath(first_arg).map(|p| ("sendfile".to_string(), p)),
+            "fsync" | "fdatasync" => fdpath(first_arg).map(|p| ("fsync".to_string(), p)),
+            "ftruncate" => fdpath(first_arg).map(|p| ("ftruncate".to_string(), p)),
+            "fchmod" => fdpath(first_arg).map(|p| ("fchmod".to_string(), p)),
+            "rename" => quoted.first().map(|q| ("rename".to_string(), abs("", q))),
+            "renameat" | "renameat2" => quoted.first().map(|q| ("rename".to_string(), abs(first_arg, q))),
+            "unlink" => quoted.first().map(|q| ("unlink".to_string(), abs("", q))),
+            "unlinkat" => quoted.first().map(|q| ("unlink".to_string(), abs(first_arg, q))),
+            "mkdir" => quoted.first().map(|q| ("mkdir".to_string(), abs("", q))),
+            "mkdirat" => quoted.first().map(|q| ("mkdir".to_string(), abs(first_arg, q))),
+            "rmdir" => quoted.first().map(|q| ("rmdir".to_string(), abs("", q))),
+            "truncate" => quoted.first().map(|q| ("truncate".to_string(), abs("", q))),
+            "chmod" => quoted.first().map(|q| ("chmod".to_string(), abs("", q))),
+            "utimensat" => {
+                if quoted.is_empty() { fdpath(first_arg).map(|p| ("futimens".to_string(), p)) } else { quoted.first().map(|q| ("utimens".to_string(), abs(first_arg, q))) }
+            }
+            "link" | "symlink" | "linkat" | "symlinkat" => quoted.last().map(|q| (name.trim_end_matches("at").to_string(), abs(first_arg, q))),
+            _ => None,
+        };
+        if let Some((k, p)) = ev {
+            let p = p.replace("//", "/");
+            if (p == root || p.starts_with(&format!("{root}/"))) && !p.ends_with("/shim.log") {
+                out.push(format!("{k} {}", p.replace(root, "$R")));
+            }
+        }
+    }
+    out
+}
+
+/// Run scenarios under BOTH strace and the interposer and require that every file-system-mutating
+/// system call strace reports under the scratch root appears in the interposer log, in the same order.
+/// A libc entry point the binary started to use and the shim does not interpose shows up here.
+pub fn audit() -> Result<String, String> {
+    if std::process::Command::new("strace").arg("-V").output().is_err() {
+        return Err("SKIP: strace is not available".into());
+    }
+    let sc = Scratch::new("audit");
+    let root = sc.root.to_string_lossy().into_owned();
+    let mut report = Vec::new();
+    let trace_set = "trace=openat,open,creat,write,writev,pwrite64,copy_file_range,sendfile,fsync,fdatasync,rename,renameat,renameat2,unlink,unlinkat,mkdir,mkdirat,rmdir,ftruncate,truncate,fchmod,chmod,utimensat,link,linkat,symlink,symlinkat";
+    let mut run = |name: &str, args: &[&str], stdin_bytes: Option<Vec<u8>>, prep: &dyn Fn()| -> Result<(), String> {
+        for d in ["A", "B", "home", "src", "dst"] {
+            wipe(&sc.path(d));
+        }
+        prep();
+        let (log, st) = (sc.path("shim.log"), sc.path("strace.out"));
+        let _ = std::fs::remove_file(&log);
+        let o = std::process::Command::new("strace")
+            .args(["-f", "-y", "-s", "4096", "-o"])
+            .arg(&st)
+            .args(["-e", trace_set])
+            .arg(cli_bin())
+            .args(args)
+            .current_dir(&sc.root)
+            .env("HOME", sc.path("home"))
+            .env("HOSTNAME", "vhost")
+            .env("RUST_LOG", "off")
+            .env("TOKIO_WORKER_THREADS", "1")
+            .env("LD_PRELOAD", SHIM)
+            .env("VSHIM_MODE", "log")
+            .env("VSHIM_LOG", &log)
+            .env("VSHIM_ROOT", &sc.root)
+            .stdin(match &stdin_bytes {
+                Some(b) => {
+                    let f = sc.path("stdin.bin");
+                    let _ = std::fs::write(&f, b);
+                    std::process::Stdio::from(std::fs::File::open(&f).map_err(|e| format!("{e}"))?)
+                }
+                None => std::process::Stdio::null(),
+            })
+            .output()
+            .map_err(|e| format!("strace: {e}"))?;
+        let _ = o;
+        let want = strace_events(&st, &root);
+        let got: Vec<String> = read_log(&log).iter().map(|r| format!("{} {}", r.call, r.p1.replace(&root, "$R"))).collect();
+        if want.is_empty() {
+            return Err(format!("SKIP: audit scenario {name}: strace saw no mutating call (ptrace not permitted?)"));
+        }
+        if want != got {
+            let i = want.iter().zip(got.iter()).position(|(a, b)| a != b).unwrap_or(want.len().min(got.len()));
+            return Err(format!("audit scenario {name}: interposer log and strace differ at event {i}: strace {:?} vs shim {:?} ({} vs {} events)", want.get(i), got.get(i), want.len(), got.len()));
+        }
+        report.push(format!("{name}: {} mutating calls agree", want.len()));
+        Ok(())
+    };
+    let z = b"Z-base\n".to_vec();
+    run("bisync-first-run", &["bisync", "A", "B"], None, &|| {
+        write_files(&sc.path("A"), &[("d/a", z.clone()), ("same", b"S".to_vec()), ("diff", b"XXXX".to_vec())]);
+        write_files(&sc.path("B"), &[("two", b"2".to_vec()), ("same", b"S".to_vec()), ("diff", b"YY".to_vec())]);
+    })?;
+    run("sync-local-delete", &["sync", "-r", "--jobs", "1", "--delete", "src", "dst"], None, &|| {
+        write_files(&sc.path("src"), &[("a", b"aaa".to_vec()), ("d/b", Rng::new(3).bytes(300_000)), ("e", Vec::new())]);
+        write_files(&sc.path("dst"), &[("a", b"old".to_vec()), ("stale", b"s".to_vec())]);
+    })?;
+    // a hub session: Put (commit), Put with a stale expected (conflict-copy), Delete, Bye
+    let session = {
+        use crate::wire::Request;
+        let frame = |r: &Request| {
+            let mut v = Vec::new();
+            let _ = crate::wire::write_frame(&mut v, r);
+            v
+        };
+        let hh = |b: &[u8]| *blake3::hash(b).as_bytes();
+        let mut s = crate::wire::MAGIC.to_vec();
+        s.extend(frame(&Request::Hello { version: 1 }));
+        s.extend(frame(&Request::Put { path: "d/x".into(), expected: None, len: 3, hash: hh(b"abc") }));
+        s.extend_from_slice(b"abc");
+        s.extend(frame(&Request::Put { path: "d/x".into(), expected: None, len: 2, hash: hh(b"zz") }));
+        s.extend_from_slice(b"zz");
+        s.extend(frame(&Request::Delete { path: "d/x".into(), expected: Some(hh(b"abc")) }));
+        s.extend(frame(&Request::Bye));
+        s
+    };
+    run("serve-session", &["serve", "dst"], Some(session), &|| {})?;
+    Ok(report.join("; "))
+}
